@@ -36,6 +36,8 @@ def run(ctx: Ctx) -> None:
             ctx.ok("T1", f"label {lab}", "mappyfile/transformer.py", "callback present")
         elif lab in cmeths:
             ctx.ok("T1", f"label {lab}", "mappyfile/transformer.py", "rewritten by Canonize before the main transformer")
+        elif lab in repo.module("transformer").class_bindings.get("MapfileTransformer", {}):
+            raise AnalysisError(f"callback {lab} is bound in the class body by an expression that is not resolved to a function")
         else:
             ctx.finding("T1", f"label {lab}", "mappyfile/mapfile.lark", f"the grammar can build a '{lab}' node but MapfileTransformer has no callback for it: the raw Tree would end up in the dictionary")
     rule_names = {r.alias or r.origin for r in G.rules}
